@@ -34,7 +34,7 @@ def strategy(tier):
 
 def run_case(case, cx):
     m, m2, cfg = case["model"], case["mutant"], case["cfg"]
-    d, b1, b2 = pairs.build_pair(cx, m, m2, cfg, nodebug_tus=tuple(case["nodebug"]))
+    d, b1, b2 = pairs.build_pair(cx, m, m2, cfg, nodebug_tus=tuple(case["nodebug"]), sonames=case.get("sonames"))
     # two package directories: libA (changed), libB (unchanged third library), libC (only in the first)
     try:
         p1, p2 = d + "/pkg1", d + "/pkg2"
